@@ -122,10 +122,13 @@ class FileManager:
         temp_file = os.path.dirname(filename) + os.sep + "_" + os.path.basename(filename)
 
         try:
-            FileManager.file_interfaces[ext].save(temp_file, data)
-        except KeyError:
-            raise AssertionError("No config file processor available for file type {}".format(ext))
+            try:
+                FileManager.file_interfaces[ext].save(temp_file, data)
+            except KeyError:
+                raise AssertionError("No config file processor available for file type {}".format(ext))
 
-        # move temp file
-        os.replace(temp_file, filename)
-        FileManager.is_busy = False
+            # move temp file
+            os.replace(temp_file, filename)
+        finally:
+            # a failed write must not block all later writes
+            FileManager.is_busy = False
